@@ -6,10 +6,11 @@
 import MenelausVerif.Driver.Core
 import MenelausVerif.Driver.Election
 import MenelausVerif.Driver.Lifecycle
+import MenelausVerif.Driver.Sequential
 open MV.Driver
 
 def registry : List (List String → Option Machine) :=
-  [mkElection, mkLifecycle]
+  [mkElection, mkLifecycle, mkSequential]
 
 def mkMachine (ts : List String) : Option Machine :=
   registry.findSome? (fun f => f ts)
